@@ -15,6 +15,7 @@ must equal Python's; a difference is a tool error (exit 2), never a verdict abou
 import json
 import os
 import re
+import zlib
 
 import vlib
 import fmt_util as fu
@@ -81,16 +82,15 @@ def _selftest(batch, st):
 
 def _replay(chk, batch, both_surfaces, st, tag):
     progs, meta = [], []
-    for n, (c, fm) in enumerate(batch):
+    for c, fm in batch:
         surfaces = fu.programs(fm["fmt"], fm["vals"])
         if not both_surfaces:
-            surfaces = [surfaces[(c["idx"] + n) % 2]]
+            surfaces = [surfaces[zlib.crc32(surfaces[0][1].encode()) % 2]]
         for sname, src in surfaces:
             progs.append({"k": "eval", "src": src, "manifest": "string"})
             meta.append((c, fm, sname))
     results = run_cases(progs, "c19_" + tag, timeout_ms=10000)
     st.programs += len(progs)
-    flip = os.environ.get("C19_DEBUG_FLIP")          # binding demonstration only
     for prog, (c, fm, sname), res in zip(progs, meta, results):
         exp = fm["exp"]
         k = exp["k"]
@@ -133,8 +133,6 @@ def _replay(chk, batch, both_surfaces, st, tag):
             continue
         got = res["ok"]
         if k == "ok":
-            if flip and flip in prog["src"]:
-                want = want + "!"
             if got != want:
                 chk.disagree(dict(sig, **{"class": _classify(want, got, m)}),
                              f"`{shown}` gives {fu.short(got)}, specification says {fu.short(want)}",
@@ -197,6 +195,7 @@ def run(tier, seed):
         kk = f"{sig_['class']}|{sig_['universe']}|%{sig_['conv']}"
         vc.setdefault(kk, [0, what_[:240]])[0] += 1
     chk.extra["disagreement_classes"] = {k_: {"count": v_[0], "example": v_[1]} for k_, v_ in sorted(vc.items())}
+    chk.extra["universe_complete"] = {m_: (qs_ if quick else ts_) == 1 for m_, qs_, ts_ in MODES}
     chk.extra["outcome_classes"] = st.outcome
     chk.extra["evaluations_by_conversion"] = dict(sorted(st.by_conv.items()))
     chk.extra["spec_selftest_vs_python"] = {"equal_strings": st.agree["ok"], "both_error": st.agree["err"],
